@@ -1123,6 +1123,14 @@ int module_load(
     if (block_data == NULL)
       continue;
 
+    // Release the (empty) ELF structure allocated for a previous block that
+    // turned out not to be an ELF file.
+    if (module_object->data != NULL)
+    {
+      yr_free(module_object->data);
+      module_object->data = NULL;
+    }
+
     ELF* elf = (ELF*) yr_calloc(1, sizeof(ELF));
     if (elf == NULL)
       return ERROR_INSUFFICIENT_MEMORY;
